@@ -51,7 +51,7 @@ class C03(nestedcheck.NestedCheck):
                 'TM.C03_full_counterexample', 'TM.C02_exit_children_first', 'TM.C02_new_configuration')
     rule = ('a case = (state tree, placement of transitions, condition valuation, history); non-trivial iff at least '
             'one transition with a state change executed on HierarchicalMachine; distinct by the hash of the encoded case')
-    trusted = C02_TRUSTED = (
+    trusted = (
         'hand-written Lean model of nesting.py (Model/Tree, Nested, NestedDispatch), tied to the code by trace equality',
         'projection of recorder calls to enter/exit/offer/execute events (C02.project in Lean; first recorder of every '
         'state / transition is unique)',
